@@ -354,8 +354,8 @@ def parse_user_item(t, second, body, strict):
             s = body.decode("ascii")
         except UnicodeDecodeError:
             raise Reject("impl version: non-ascii")
-        if strict and not (1 <= len(s) <= 16):
-            raise Reject("impl version: length")
+        if strict and (not (1 <= len(s) <= 16) or any(ord(c) not in AE_CHARS for c in s) or not s.strip(" ")):
+            raise Reject("impl version: length/characters")
         return ImplVersion(s)
     if t == 0x56:
         n = r.u16()
@@ -413,8 +413,10 @@ def _parse_assoc(body, kind, strict):
         called = called_b.decode("latin-1").strip(" ")
         calling = calling_b.decode("latin-1").strip(" ")
     app, ctxs, ui = [], [], []
+    order = []
     while r.rest():
         t, second, ib = r.item()
+        order.append(t)
         if t == 0x10:
             app.append(_uid(ib, "application context", strict))
         elif t == 0x20 and kind == 1:
@@ -471,6 +473,9 @@ def _parse_assoc(body, kind, strict):
     if len(ui) != 1:
         raise Reject("user information count != 1")
     if strict:
+        # conservative: only the order of the tables (application context, presentation contexts, user information)
+        if order != sorted(order):
+            raise Reject("variable items not in table order")
         if kind == 1 and not (1 <= len(ctxs) <= 128):
             raise Reject("rq: context count")
         ids = [c.cid for c in ctxs]
@@ -520,6 +525,8 @@ def ref_parse(b, strict=True):
             if strict and n < 2:
                 raise Reject("pdv: no message control header")
             pdvs.append([item[0], item[1:]])
+        if strict and not pdvs:
+            raise Reject("p-data: no PDV item")
         return PData(pdvs), r.o
     if t in (5, 6):
         if ln != 4:
